@@ -49,7 +49,7 @@ macro_rules! run_set {
 pub fn run_one(out: &mut Out, sc: usize, s: &J) {
     if s["kind"] == "assets" { return run_assets(out, sc, s); }
     let types: Vec<&str> = match s.get("types") { Some(t) => t.as_array().unwrap().iter().map(|x| x.as_str().unwrap()).collect(),
-        None => vec!["inputs", "keyhashes", "credentials", "certificates", "proposals", "vkeywitnesses", "bootstraps", "ws_native", "ws_plutus", "ws_data"] };
+        None => vec!["inputs", "keyhashes", "credentials", "certificates", "proposals", "vkeywitnesses", "bootstraps", "ws_native", "ws_plutus", "ws_plutus_mix", "ws_data"] };
     for ty in types {
         let (table, r) = match ty {
             "inputs" => run_set!(csl::TransactionInputs, |id: u8| mk::txin(id, id as u32), |e: &csl::TransactionInput| e.to_json().unwrap(), |e: &csl::TransactionInput| e.to_bytes(), |b: Vec<u8>| csl::TransactionInput::from_bytes(b).unwrap(),
@@ -80,12 +80,14 @@ fn run_ws(ty: &str, s: &J) -> (J, J) {
         match ty {
             "ws_native" => { let mut c = csl::NativeScripts::new(); for id in all.iter() { c.add(&mk::pubkey_script(*id as u8)); } ws.set_native_scripts(&c); }
             "ws_plutus" => { let mut c = csl::PlutusScripts::new(); for id in all.iter() { c.add(&pscript(*id as u8 * 3 + 1)); } ws.set_plutus_scripts(&c); }   // ids 4,7,10: all PlutusV2
+            // scripts of three language versions in one list (ids 1, 2, 3 -> V2, V3, V1): a script may come again after a script of another version
+            "ws_plutus_mix" => { let mut c = csl::PlutusScripts::new(); for id in all.iter() { c.add(&pscript([4u8, 5, 3][(*id as usize - 1) % 3])); } ws.set_plutus_scripts(&c); }
             _ => { let mut c = csl::PlutusList::new(); for id in all.iter() { c.add(&csl::PlutusData::new_bytes(vec![*id as u8; 3])); } ws.set_plutus_data(&c); }
         }
         Ok(ws.to_bytes())
     }).to_json(|b| obj(vec![("bytes", jbytes(&b))]));
     for id in 1..=3u64 {
-        let b = match ty { "ws_native" => mk::pubkey_script(id as u8).to_bytes(), "ws_plutus" => pscript(id as u8 * 3 + 1).to_bytes(), _ => csl::PlutusData::new_bytes(vec![id as u8; 3]).to_bytes() };
+        let b = match ty { "ws_native" => mk::pubkey_script(id as u8).to_bytes(), "ws_plutus" => pscript(id as u8 * 3 + 1).to_bytes(), "ws_plutus_mix" => pscript([4u8, 5, 3][(id as usize - 1) % 3]).to_bytes(), _ => csl::PlutusData::new_bytes(vec![id as u8; 3]).to_bytes() };
         table.insert(id.to_string(), jbytes(&b));
     }
     (J::Object(table), r)
